@@ -15,13 +15,19 @@
     `C14_F2_witness_now_ok`  the old F2 witness satisfies the property (regression theorem);
                       `C14_F2_old_behaviour_violates`: the pre-repair `get_formatted_variables` does not,
     `C14_partial`     the property outside the finding triggers (`Supported_14`), narrowed by the explicitly
-                      named `Proved_14` (no mutator on a class-level object anywhere in the history or the
-                      operation — stronger than ¬F4, which only forbids *re-using* a mutated accessor;
-                      `proved_within_supported`); the region between the two is covered by correspondence
-                      and oracle only.
+                      named `Proved_14` (the operation ITSELF applies no mutator to a class-level object; the
+                      HISTORY is constrained by the F4 trigger alone since `history_free_outside_F4`); the region
+                      between the two - an operation that applies alias/on to a class-level accessor it uses once -
+                      is covered by correspondence and oracle only.
+  Objects kept in python variables (Model/BuilderLet.lean): `rendering_changes_only_formatted`,
+  `rerender_formatted_irrelevant`, `history_free_owned`, `history_free_owned_calls`, `runProg_conservative`;
+  `C14_owned_full` is refuted by finding F6 (`owned_reuse_in_one_operation_undeclared`, `C14_owned_full_false`).
 -/
 import AriadneModel.Proofs.C14Total
 import AriadneModel.Proofs.C14Old
+import AriadneModel.Proofs.C14Prog
+import AriadneModel.Proofs.C14Frame
+import AriadneModel.Spec.BuilderLetDoc
 
 set_option linter.unusedSimpArgs false
 set_option linter.unusedVariables false
@@ -107,6 +113,16 @@ example : ∃ d st', execOp "query" "Op" []
           [.obj { cls := "P", fieldName := "title", vars := [{ key := "maxLen", ty := "Int", value := .num 3 0 }] } [] []] []] []]]]
     = .ok (d, st') ∧ crossClash d.sels = false ∧ d.varDefs = [("text_0", "String"), ("maxLen_0", "Int")] :=
   ⟨_, _, rfl, by decide, by decide⟩
+
+/-- `sent_name_and_kind`: whatever the process state, whatever the expression - when `client.query(...)` /
+    `client.mutation(...)` sends, the document is an operation of THAT kind under THAT name, and `execute` is handed the
+    same name as `operation_name` and the collected values as `variables` (`Doc.request`). -/
+theorem sent_name_and_kind (p : Package) (E : Op) (st : Store) (d : Doc) (h : (runOp p E st).1 = .ok d) :
+    d.opType = E.opType ∧ d.name = E.name ∧ d.request.operationName = E.name ∧ d.request.variables = d.values :=
+  runOp_name_kind p E st d h
+
+example : ∃ d, (runOp (genPackage { types := [], query := none, mutation := none })
+    { opType := "mutation", name := "M", fields := [] } []).1 = .ok d := ⟨_, rfl⟩
 
 /-! ## The generators -/
 
@@ -238,31 +254,46 @@ def Supported_14 (s : Schema) (H : List Op) (E : Op) : Prop :=
      ∨ trigSharedMut H E = true                                 -- F4 sharedMut
      ∨ trigClash ((runOps (genPackage s) (H ++ [E])).getLast?.getD (.error .recursion)) = true)  -- F5 nameClash
 
-/-- the narrowing still in force: no mutator on a class-level object anywhere (implies ¬F4) -/
-def Proved_14 (H : List Op) (E : Op) : Prop :=
-  (∀ op ∈ H, opMutatesShared op = false) ∧ opMutatesShared E = false
+/-- `history_free_outside_F4`: HISTORY-FREEDOM on the whole complement of the F4 trigger (history part).  An operation
+    that applies no mutator to a class-level object itself and is well-formed sends, after ANY history that never
+    applied `alias`/`fields`/`on` to a class-level accessor the operation names, exactly what it sends in a fresh
+    process - whatever that history did to OTHER class-level objects (aliases, inline fragments, cycles), whatever
+    it raised.  (`history_free` needed a history without any mutator.) -/
+theorem history_free_outside_F4 (p : Package) (H : List Op) (E : Op) (hE : opMutatesShared E = false)
+    (hI : (Intended p E).isSome = true) (hT : trigSharedMut H E = false) :
+    (runOps p (H ++ [E])).getLast? = (runOps p [E]).getLast? :=
+  history_free_unmutated p H E hE hI hT
 
-/-- `Proved_14` lies inside the complement of the F4 trigger -/
-theorem proved_within_supported (H : List Op) (E : Op) (h : Proved_14 H E) : trigSharedMut H E = false :=
-  trigSharedMut_of_noMut H E h.1 h.2
+/-- the narrowing still in force: the operation ITSELF applies no mutator to a class-level object.  (Until this
+    round the whole history had to be free of such mutators as well; `history_free_outside_F4` removed that: the
+    history is now constrained by the F4 trigger alone.)  What is left between `Supported_14` and the theorem:
+    operations that apply `alias`/`on` to a class-level accessor which they use exactly once and which no earlier
+    operation mutated - covered by correspondence and oracle only. -/
+def Proved_14 (E : Op) : Prop := opMutatesShared E = false
+
+/-- `Proved_14` lies inside the complement of the F4 trigger as far as the operation itself is concerned -/
+theorem proved_within_supported (E : Op) (h : Proved_14 E) : trigSharedMut [] E = false :=
+  trigSharedMut_of_noMut [] E (by simp) h
 
 theorem C14_partial (s : Schema) (H : List Op) (E : Op)
-    (hvalid : ValidExpr s (genPackage s) E = true) (hsup : Supported_14 s H E) (hpr : Proved_14 H E) :
+    (hvalid : ValidExpr s (genPackage s) E = true) (hsup : Supported_14 s H E) (hpr : Proved_14 E) :
     GoodAfter s H E := by
   have hI : (Intended (genPackage s) E).isSome = true := by
     unfold ValidExpr at hvalid
     split at hvalid
     · rename_i root rs hroot hint; simp [hint]
     · simp at hvalid
-  obtain ⟨d, hd⟩ := fresh_never_raises (genPackage s) H E hpr.1 hpr.2 hI
   unfold Supported_14 at hsup
   simp only [not_or, Bool.not_eq_true] at hsup
-  obtain ⟨h1, h3, -, h5⟩ := hsup
-  rw [hd] at h5
+  obtain ⟨h1, h3, h4, h5⟩ := hsup
+  have hfree := history_free_outside_F4 (genPackage s) H E hpr hI h4
+  obtain ⟨d, hd⟩ := fresh_never_raises (genPackage s) [] E (by simp) hpr hI
+  simp only [List.nil_append] at hd
+  rw [hfree, hd] at h5
   simp only [Option.getD_some, trigClash] at h5
   obtain ⟨g1, g2, g3, g4, g5, g6, g7⟩ :=
-    op_good (genPackage s) H E d (genPackage_sharedExact s) hpr.1 hpr.2 h1 h3 hd h5
-  refine ⟨d, hd, g1, g3, g4, ?_, g7⟩
+    op_good (genPackage s) [] E d (genPackage_sharedExact s) (by simp) hpr h1 h3 (by simpa using hd) h5
+  refine ⟨d, by rw [hfree, hd], g1, g3, g4, ?_, g7⟩
   unfold ValidExpr at hvalid
   rw [← g5] at hvalid
   split at hvalid
@@ -458,6 +489,10 @@ def opOK : Op := q "Op" [
   me [uid, .fields (.alias (.call "UserFields" "posts" [("tags", .null)]) "p") [.attr "PostFields" "id"]],
   .fields (.alias (.call "Query" "b" [("n_0", .str "s")]) "other") [.call "ItemFields" "part" [("n", .num 1 0)]]]
 def opHist : Op := q "Op0" [me [uid]]
+/-- `Query.me().fields(UserFields.posts(tags=None).alias("p").fields(PostFields.id))`, `Query.b(n_0="s").fields(ItemFields.part(n=1))` -/
+def opOK2 : Op := q "Op" [
+  me [.fields (.alias (.call "UserFields" "posts" [("tags", .null)]) "p") [.attr "PostFields" "id"]],
+  .fields (.call "Query" "b" [("n_0", .str "s")]) [.call "ItemFields" "part" [("n", .num 1 0)]]]
 /-- inside the region gained by the repair: arguments at levels 3 and 4, below an inline fragment of a fresh
     union-typed object: `Query.search(text="a").on("Dog", DogFields.owner().fields(UserFields.posts()
     .fields(PostFields.title(max_len=3)), UserFields.id)).on("Cat", CatFields.name)`, `Query.me().fields(…title(max_len=4)…)` -/
@@ -471,7 +506,7 @@ end W
 
 example : ValidExpr W.schema (genPackage W.schema) W.opOK = true := by decide
 example : Supported_14 W.schema [W.opHist] W.opOK := by unfold Supported_14; decide
-example : Proved_14 [W.opHist] W.opOK := by unfold Proved_14; decide
+example : Proved_14 W.opOK := by unfold Proved_14; decide
 example : W.sentText [W.opHist] W.opOK = some
     "query Op($n_0_1: String $n_1: Int) { me() { id() p: posts() { id() } } other: b(n_0: $n_0_1) { part(n: $n_1) } } n_0_1:\"s\",n_1:1e-0," := by
   decide
@@ -486,5 +521,170 @@ example : W.sentText [W.opHist] W.opDeep = some
   decide
 example : GoodAfter W.schema [W.opHist] W.opDeep :=
   C14_partial W.schema [W.opHist] W.opDeep (by decide) (by unfold Supported_14; decide) (by unfold Proved_14; decide)
+
+/-- … and after a history that DID mutate class-level objects - `UserFields.id.alias("ident")`, and the union accessor
+    `UserFields.pet` nested inside itself (RecursionError) - none of which the operation names (it uses
+    `PostFields.id`, `ItemFields.part`): the region `history_free_outside_F4` added to the theorem -/
+example : opMutatesShared W.opF4h = true ∧ opMutatesShared W.opF4r = true := by decide
+example : Supported_14 W.schema [W.opF4h, W.opF4r] W.opOK2 := by unfold Supported_14; decide
+example : GoodAfter W.schema [W.opF4h, W.opF4r] W.opOK2 :=
+  C14_partial W.schema [W.opF4h, W.opF4r] W.opOK2 (by decide) (by unfold Supported_14; decide) (by unfold Proved_14; decide)
+
+/-! ## Objects kept in python variables (Model/BuilderLet.lean, Spec/BuilderLetDoc.lean)
+
+An object returned by a classmethod may be assigned to a variable and used again: it is then allocated in the
+store, rendered once per use, and carries `formatted_variables` from one rendering to the next.
+`eraseL` / `eraseN` (Proofs/C14Owned.lean) forget `formatted` in every object of a store / a node; two stores
+with `eraseL st1 = eraseL st2` are two processes that agree up to `formatted_variables`. -/
+
+/-- `rendering_changes_only_formatted`: one client call (`to_ast` of every argument, `get_formatted_variables`)
+    changes nothing in the process but `formatted_variables` - whatever the store, whatever the arguments. -/
+theorem rendering_changes_only_formatted (ty nm : String) (st : Store) (nodes : List Node) (d : Doc) (st' : Store)
+    (h : execOp ty nm st nodes = .ok (d, st')) : eraseL st' = eraseL st := execOp_erase h
+
+/-- `rerender_formatted_irrelevant`: one client call never READS the `formatted_variables` it finds
+    (`_collect_all_variables` starts from `{}`; `get_formatted_variables` only visits objects the same call has
+    just rendered).  Two processes / argument lists that agree up to `formatted` raise the same exception or send
+    the SAME document (selections, definitions, values), and agree again up to `formatted` afterwards.
+    Every store, every list of argument objects (shared, owned, cyclic ...), no bound. -/
+theorem rerender_formatted_irrelevant (ty nm : String) (st1 st2 : Store) (ns1 ns2 : List Node)
+    (hs : eraseL st1 = eraseL st2) (hn : eraseL ns1 = eraseL ns2) :
+    (∃ e, execOp ty nm st1 ns1 = .error e ∧ execOp ty nm st2 ns2 = .error e) ∨
+    (∃ d t1 t2, execOp ty nm st1 ns1 = .ok (d, t1) ∧ execOp ty nm st2 ns2 = .ok (d, t2) ∧ eraseL t1 = eraseL t2) :=
+  execOp_formatted_irrelevant ty nm hs hn
+
+namespace W
+/-- `ItemFields.part(n=1)` as it sits in the store after having been rendered under top-level field 7 -/
+def stalePart : Node :=
+  .obj { cls := "ItemFields", fieldName := "part", vars := [{ key := "n", ty := "Int", value := .num 1 0 }],
+         formatted := [{ uname := "n_7", key := "n", ty := "Int", value := .num 1 0 }] } [] []
+def freshPart : Node :=
+  .obj { cls := "ItemFields", fieldName := "part", vars := [{ key := "n", ty := "Int", value := .num 1 0 }] } [] []
+def useZero : List Node := [.obj { cls := "ItemFields", fieldName := "a" } [.ref 0] []]
+end W
+
+/-- non-vacuity: a stale `$n_7` in the object does not show in the document -/
+example : eraseL [W.stalePart] = eraseL [W.freshPart] := rfl
+example : (match execOp "query" "Op" [W.stalePart] W.useZero with | .ok (d, _) => some (showDoc d) | .error _ => none)
+    = some "query Op($n_0: Int) { a() { part(n: $n_0) } } n_0:1e-0," := by decide
+example : (match execOp "query" "Op" [W.freshPart] W.useZero with | .ok (d, _) => some (showDoc d) | .error _ => none)
+    = some "query Op($n_0: Int) { a() { part(n: $n_0) } } n_0:1e-0," := by decide
+
+/-- `history_free_owned`: HISTORY-FREEDOM for programs with variables.  Whatever the earlier operations of the
+    process SENT - re-using objects kept in variables at any position, any number of times -, as long as the
+    ARGUMENTS of those client calls apply no `alias`/`fields`/`on` to an object that outlives the call (a class-level
+    object or a variable; assignments may do what they like), the last operation gives exactly what it gives in a
+    process that executed only the ASSIGNMENTS of the history and sent nothing.  Every package, every history, every
+    operation; exceptions included. -/
+theorem history_free_owned (p : Package) (H : List POp) (E : POp)
+    (hH : ∀ op ∈ H, pMutatesList op.fields = false) :
+    (runProg p (H ++ [E])).getLast? =
+      some (runPOp p E (letsOnlyFrom p H [] p.initStore).1 (letsOnlyFrom p H [] p.initStore).2).1 :=
+  runProgFrom_last p E H [] p.initStore p.initStore rfl hH
+
+/-- … hence two histories with the same assignments are indistinguishable, whatever they sent -/
+theorem history_free_owned_calls (p : Package) (H1 H2 : List POp) (E : POp)
+    (h1 : ∀ op ∈ H1, pMutatesList op.fields = false) (h2 : ∀ op ∈ H2, pMutatesList op.fields = false)
+    (hl : H1.map (·.lets) = H2.map (·.lets)) :
+    (runProg p (H1 ++ [E])).getLast? = (runProg p (H2 ++ [E])).getLast? := by
+  rw [history_free_owned p H1 E h1, history_free_owned p H2 E h2, letsOnlyFrom_congr p H1 H2 hl]
+
+namespace W
+def partCall : PExpr := .call "ItemFields" "part" [("n", .num 1 0)]
+def pq (lets : List (String × PExpr)) (name : String) (fs : List PExpr) : POp :=
+  { lets := lets, opType := "query", name := name, fields := fs }
+/-- `part = ItemFields.part(n=1); client.query(Query.me().fields(UserFields.id), Query.a().fields(part))` ($n_1) -/
+def popH : POp := pq [("part", partCall)] "Op0"
+  [.fields (.call "Query" "me" []) [.attr "UserFields" "id"], .fields (.call "Query" "a" []) [.var "part"]]
+/-- the same assignment, nothing rendered before: `client.query(Query.me().fields(UserFields.id))` -/
+def popH' : POp := pq [("part", partCall)] "Op0" [.fields (.call "Query" "me" []) [.attr "UserFields" "id"]]
+/-- `client.query(Query.a().fields(part))`: the same OBJECT, now under top-level field 0 ($n_0) -/
+def popE : POp := pq [] "Op1" [.fields (.call "Query" "a" []) [.var "part"]]
+def progText (P : List POp) : Option String := (lastDoc (runProg (genPackage schema) P)).map showDoc
+/-- `part = ItemFields.part(n=1); client.query(Query.a().fields(part.alias("z")))` -/
+def popMut : POp := pq [("part", partCall)] "Op0" [.fields (.call "Query" "a" []) [.alias (.var "part") "z"]]
+/-- `part = ItemFields.part(n=1); z = part.alias("z"); client.query(Query.a().fields(part))` -/
+def popLetMut : POp := pq [("part", partCall), ("z", .alias (.var "part") "z")] "Op0"
+  [.fields (.call "Query" "a" []) [.var "part"]]
+end W
+
+/-- non-vacuity of `history_free_owned`: an object with an argument rendered as `$n_1` in the history, as `$n_0` after -/
+example : ∀ op ∈ [W.popH], pMutatesList op.fields = false := by decide
+example : W.progText [W.popH] = some
+    "query Op0($n_1: Int) { me() { id() } a() { part(n: $n_1) } } n_1:1e-0," := by decide
+example : W.progText ([W.popH] ++ [W.popE]) = some "query Op1($n_0: Int) { a() { part(n: $n_0) } } n_0:1e-0," := by decide
+example : (runProg (genPackage W.schema) ([W.popH] ++ [W.popE])).getLast? =
+    (runProg (genPackage W.schema) ([W.popH'] ++ [W.popE])).getLast? :=
+  history_free_owned_calls _ _ _ _ (by decide) (by decide) rfl
+
+/-- the hypothesis of `history_free_owned` is needed, and it is the only thing that is: a mutator applied through a
+    variable INSIDE THE ARGUMENTS of a client call (`client.query(Query.a().fields(part.alias("z")))`) stays on the
+    object, as on any python object; two histories with the same assignments then differ for the next operation.
+    (Not a finding: the caller mutated an object it holds.  The same mutator written in an ASSIGNMENT -
+    `part = ItemFields.part(n=1).alias("z")` - is covered by the theorem.) -/
+example : pMutatesList W.popMut.fields = true ∧ W.popMut.lets = W.popH'.lets := ⟨by decide, rfl⟩
+example : W.progText ([W.popMut] ++ [W.popE]) = some "query Op1($n_0: Int) { a() { z: part(n: $n_0) } } n_0:1e-0," := by decide
+example : W.progText ([W.popH'] ++ [W.popE]) = some "query Op1($n_0: Int) { a() { part(n: $n_0) } } n_0:1e-0," := by decide
+/-- … whereas in an assignment it is part of what the theorem keeps: -/
+example : ∀ op ∈ [W.popLetMut], pMutatesList op.fields = false := by decide
+example : W.progText ([W.popLetMut] ++ [W.popE]) = some "query Op1($n_0: Int) { a() { z: part(n: $n_0) } } n_0:1e-0," := by decide
+
+/-- `runProg_conservative`: on programs without variables the model with variables IS the tree model
+    (`Expr.toP` / `Op.toP`: a tree expression read as a program) -/
+theorem runProg_conservative (p : Package) (ops : List Op) : runProg p (ops.map Op.toP) = runOps p ops :=
+  runProgFrom_toP p ops [] p.initStore
+
+/-- What C14 promises for the LAST operation of a program with variables, `E` being that operation written out with
+    fresh objects (`inlineProg`): the program sends a document, and that document is good for `E` in a fresh process -
+    in particular it IS the document `E` sends there ("depends only on the expression that built it"). -/
+def GoodProg (s : Schema) (P : List POp) (E : Op) : Prop :=
+  ∃ doc, (runProg (genPackage s) P).getLast? = some (.ok doc) ∧ GoodDoc s [] E doc
+
+/-- the property for programs that keep objects in variables and use them again UNCHANGED (no `alias`/`fields`/`on`
+    applied to a class-level object - that is F4, `C14_full` - or through a variable), every written-out operation
+    being a well-typed selection -/
+def C14_owned_full : Prop :=
+  ∀ (s : Schema) (P : List POp) (ops : List Op) (E : Op),
+    inlineProg P = some ops → ops.getLast? = some E →
+    (∀ op ∈ ops, ValidExpr s (genPackage s) op = true) → (∀ op ∈ P, op.mutates = false) → GoodProg s P E
+
+namespace W
+/-- F6  `part = ItemFields.part(n=1); client.query(Query.a().alias("x").fields(part), Query.a().alias("y").fields(part))` -/
+def progF6 : List POp := [pq [("part", partCall)] "Op"
+  [.fields (.alias (.call "Query" "a" []) "x") [.var "part"], .fields (.alias (.call "Query" "a" []) "y") [.var "part"]]]
+/-- … written out -/
+def opF6 : Op := q "Op" [
+  .fields (.alias (.call "Query" "a" []) "x") [.call "ItemFields" "part" [("n", .num 1 0)]],
+  .fields (.alias (.call "Query" "a" []) "y") [.call "ItemFields" "part" [("n", .num 1 0)]]]
+end W
+
+example : inlineProg W.progF6 = some [W.opF6] := rfl
+example : ValidExpr W.schema (genPackage W.schema) W.opF6 = true := by decide
+example : ∀ op ∈ W.progF6, op.mutates = false := by decide
+example : ∀ op ∈ W.progF6, trigOwnedReuse [] op = true := by decide
+
+/-- `owned_reuse_in_one_operation_undeclared` (finding C14-F6): the object of a variable, carrying an argument, used
+    twice in ONE operation is rendered twice (`$n_0`, `$n_1`) but remembers only its last rendering: `$n_0` is used
+    and neither declared nor sent - the document cannot be resolved (and is invalid: NoUndefinedVariables), whereas
+    the written-out expression declares both. -/
+theorem owned_reuse_in_one_operation_undeclared :
+    ∃ d, (runProg (genPackage W.schema) W.progF6).getLast? = some (.ok d) ∧
+      docVars d = ["n_0", "n_1"] ∧ d.varDefs = [("n_1", "Int")] ∧ (resolveDoc d).isNone = true ∧
+      validDoc W.schema d = false ∧
+      W.sentText [] W.opF6 = some
+        "query Op($n_0: Int $n_1: Int) { x: a() { part(n: $n_0) } y: a() { part(n: $n_1) } } n_0:1e-0,n_1:1e-0," := by
+  refine ⟨_, rfl, by decide, by decide, by decide, by decide, by decide⟩
+
+example : W.progText W.progF6 = some
+    "query Op($n_1: Int) { x: a() { part(n: $n_0) } y: a() { part(n: $n_1) } } n_1:1e-0," := by decide
+
+theorem C14_owned_full_false : ¬ C14_owned_full := by
+  intro h
+  obtain ⟨doc, hsent, g⟩ := h W.schema W.progF6 [W.opF6] W.opF6 rfl rfl (by decide) (by decide)
+  have h1 : W.progText W.progF6 = some (showDoc doc) := by simp only [W.progText, W.lastDoc_of hsent, Option.map_some]
+  have h2 : W.sentText [] W.opF6 = some (showDoc doc) := by
+    simp only [W.sentText, List.nil_append, W.lastDoc_of g.historyFree, Option.map_some]
+  have h3 : W.progText W.progF6 = W.sentText [] W.opF6 := h1.trans h2.symm
+  exact absurd h3 (by decide)
 
 end Ariadne.C14
